@@ -177,6 +177,9 @@ func (m *ipModel) failure(iv ival) {
 		}
 		if len(m.fails) > cmin {
 			m.note("threshold-with-older-failures-outside-window")
+			if first := m.fails[0]; iv.B-first.A >= m.cfg.W+eps && cmin >= 2 {
+				m.note("threshold-reached-by-in-window-failures-after-the-first-failure-left-the-window")
+			}
 		}
 		if old != nil && old.perm {
 			if old.auto {
